@@ -686,7 +686,7 @@ def stage_parser(ck, drv, sample_lines, n_mut, hist):
 
 
 # ------------------------------------------------------------------ entry
-N_THEOREMS = 16
+N_THEOREMS = 18
 
 
 def run(ck):
